@@ -53,9 +53,21 @@ func (com Commitment) Equal(c Commitment) bool {
 // Note: it doesn't verify if the proof is valid or not.
 // Check Verify() for that.
 func (commitmentProof *CommitmentProof) Validate() error {
+	// a row of the extended data square never has more leaves than this
+	maxRowLeaves := 2 * appconsts.SquareSizeUpperBound
 	for i, subtreeRootProof := range commitmentProof.SubtreeRootProofs {
 		if subtreeRootProof == nil {
 			return fmt.Errorf("subtree root proof %d is nil", i)
+		}
+		if subtreeRootProof.Start() < 0 ||
+			subtreeRootProof.End() <= subtreeRootProof.Start() ||
+			subtreeRootProof.End() > maxRowLeaves {
+			return fmt.Errorf(
+				"subtree root proof %d has an invalid leaf range [%d, %d)",
+				i,
+				subtreeRootProof.Start(),
+				subtreeRootProof.End(),
+			)
 		}
 	}
 	for i, rowProof := range commitmentProof.RowProof.Proofs {
